@@ -9,30 +9,66 @@ LAYOUT_NOTE = "Trusts the verif-hooks shape hook and that dispatch_seq visits st
 PBT = "property-based testing (proptest choice streams -> generated registration sequences -> real builder/dispatcher -> explicit oracle; proptest + structural shrinking; JSON replay)"
 
 CLAIMED = {
-    "C01": (PBT + "; oracle = reference conflict relation over the executed layout",
-        "Generated-input search over registration sequences; oracle A checks on the really executed layout that no two conflicting systems sit in different groups of one stage.",
-        LAYOUT_NOTE, "DESIGN.md 4/C01"),
-    "C02": (PBT + "; oracle = every declared dependency edge is ordered in the executed layout",
-        "Generated-input search over dependency-heavy registration sequences; oracle A: every declared edge A -> B has A strictly before B in the executed layout.",
+    "C01": (PBT + "; oracles: reference conflict relation over the executed layout (A) and disjoint fetch..release windows in the observed history under a harness-owned schedule (B), incl. depth-first enumeration of all interleavings for tiny plans",
+        "Generated registration sequences x schedules x pool sizes x entry points. Layout oracle on every case; execution on real threads with gates in the harness systems that let a decision vector order all fetch/release events (random linear extension, maximal overlap, free run with jitter, exhaustive DFS for plans of <= 5 systems).",
+        LAYOUT_NOTE + " Schedules are controlled at the granularity of system windows; interleavings inside rayon / AtomicRefCell are only sampled. The async dispatcher is exercised by the C15 check with the same window oracles.", "DESIGN.md 4/C01"),
+    "C02": (PBT + "; oracles: every declared edge ordered in the executed layout (A), Released(A) < FetchBegin(B) in every observed dispatch under schedule control (B)",
+        "Dependency-heavy generated sequences; layout oracle on every case, history oracle under random / maximal-overlap / jittered schedules for dispatch, dispatch_par, dispatch_seq (async: C15 check).",
         LAYOUT_NOTE, "DESIGN.md 4/C02"),
-    "C03": (PBT + "; oracle = barrier segments occupy strictly increasing stage ranges",
-        "Generated-input search over sequences with barriers at arbitrary positions; oracle A on the executed layout.",
+    "C03": (PBT + "; oracles: barrier segments occupy strictly increasing stage ranges (A), Released(pre) < FetchBegin(post) in observed histories (B)",
+        "Generated sequences with barriers at arbitrary positions incl. inside batch builders; layout and history oracles.",
         LAYOUT_NOTE, "DESIGN.md 4/C03"),
-    "C04": (PBT + "; oracle = registered == executed (shape hook + identification run)",
-        "Generated-input search incl. the funnel class (groups filled to capacity); every registered system appears exactly once in the executed lists.",
+    "C04": (PBT + "; oracles: registered == executed (shape hook + identification run); run counters after generated call sequences",
+        "Generated sequences incl. the funnel class (groups filled to capacity), nested batches with custom and MultiDispatcher controllers, thread-local systems; counters after 1..4 calls of dispatch / dispatch_par / dispatch_seq on pools of 1..16 threads.",
         LAYOUT_NOTE, "DESIGN.md 4/C04"),
+    "C05": (PBT + "; differential oracle: order-sensitive systems, parallel dispatch under a generated schedule vs dispatch_seq of the same dispatcher on an identical world; DFS over all interleavings for tiny plans",
+        "Differential generated-input search: world contents and every system's state after parallel dispatch must equal the sequential result, for every pool size and schedule tried.",
+        LAYOUT_NOTE + " The comparison without the `parallel` feature is not built (would need a second harness crate); stated in DESIGN.md.", "DESIGN.md 4/C05"),
+    "C06": ("property-based testing over generated PROGRAMS: type descriptors from a grammar are compiled against the crate together with the access the harness's own composition rules expect; oracle: all 48 cells probed while the fetched value is alive",
+        "Per run 26 tuple arities + 150 generated SystemData types (tuples, Option forms, custom setup handlers, derive structs with extra lifetime / type parameter / where-clause, depth <= 3); declared access, real borrows under >= 6 presence subsets, release, and setup effects are checked for each.",
+        "Covers the grammar of compositions the library provides up to depth 3, not arbitrary user impls; cell state is observed through try_fetch_internal + try_borrow(_mut).", "DESIGN.md 4/C06"),
+    "C07": (PBT + "; oracles: isolation / dependency / barrier / no-needless-serialisation predicates with the batch's access computed by the harness as the union over controller declaration and everything inside; window oracles under schedule control",
+        "Generated outer and inner sequences, nesting <= 3, 13 controller declaration shapes, custom controllers dispatching 0..3 times and shred's MultiDispatcher.",
+        LAYOUT_NOTE + " Known finding KF2 (thread-local system inside a batch is not part of the union) is matched by signature.", "DESIGN.md 4/C07"),
+    "C08": ("model-based property testing: generated guard histories against a reference machine cell -> Free | Shared(n) | Excl; all cells probed after every step",
+        "Histories over fetch / fetch_mut / try_* / by-id / system_data shapes / stepped meta-table iteration / Fetch::clone / drops / unwinding through guards; predicted guard / None / panic for every step.",
+        "Single-threaded histories only (the concurrent variant of DESIGN.md was not built); cell state observed through try_fetch_internal.", "DESIGN.md 4/C08"),
+    "C09": ("model-based property testing: generated map histories with matching and mismatching type arguments against a reference BTreeMap, with a drop tracker and an injected panicking destructor",
+        "Histories over 20 operations on 5 value types x 3 dynamic ids; every result, the stored TypeId, identity, payload pattern and the set of live values are compared after every step.",
+        "Trusts the harness's drop tracker; a crash of the process while a journalled case runs is reported as a violation with that case.", "DESIGN.md 4/C09"),
     "C10": (PBT + "; oracle = the statement's validity predicate over the executed layout",
         "Generated-input search over registration sequences; the oracle is the statement's own validity predicate evaluated on the layout that is really executed. Found and fixed two defects (duplicate dependency names, dependencies in front of a barrier).",
         LAYOUT_NOTE, "DESIGN.md 4/C10"),
+    "C11": (PBT + "; oracle: rendezvous of the first systems of all groups of a stage (retried time-out, three misses in a row)",
+        "Generated stage widths 2..16, pool sizes >= width, groups with chained members, later single-group stages; user pool, default pool, inside a batch, async dispatcher; 3 dispatches each.",
+        "A progress claim decided by a retried rendezvous: 'can overlap when the machine has idle threads'. Time is a signal here and only here.", "DESIGN.md 4/C11"),
+    "C12": (PBT + "; history oracle on thread identity / order of thread-local windows; conversion oracle for try_into_sendable; async wait() clause",
+        "Generated plans mixing really !Send thread-local systems with ordinary systems, barriers and batches; schedule-controlled dispatch; try_into_sendable Ok exactly without thread-locals and plan preserved; async: only inside wait(), once per wait.",
+        LAYOUT_NOTE + " The compile-time half (Dispatcher is not Send) is outside generated-input search. Known finding KF1 matched by signature.", "DESIGN.md 4/C12"),
+    "C13": (PBT + "; oracle: per-system setup / dispose counters, custom-handler call log, world contents before / after each setup",
+        "Generated plans with nested batches, thread-locals and 13 static SystemData shapes x pre-existing resource subsets x setup/insert/remove histories, then dispose. Found and fixed one defect (dispose not forwarded into batches).",
+        "Controllers have no setup hook of their own: their declared data is observed through created resources and the custom handler log.", "DESIGN.md 4/C13"),
+    "C14": ("fault enumeration over generated small plans: every system x fault point {before fetch, in run, after release} x {parallel, sequential} x sibling phase forced by the harness-owned schedule; pairs of one stage",
+        "Per generated plan the fault space is enumerated completely (exhaustive: true per plan); oracle: payload of an armed system reaches the caller, no counter above its bound, no transitive dependent ran, all cells free, the next dispatch runs everything exactly once.",
+        "The async dispatcher is excluded (a panicking spawned job aborts the process by rayon's default handler).", "DESIGN.md 4/C14"),
+    "C15": ("model-based property testing: generated call histories on the async dispatcher with systems held inside run / pool workers occupied by the harness; oracles on counters at every return, on running(), and on the event history",
+        "Generated plans x histories over dispatch / running / wait / wait_without_tl / world / world_mut / setup x pool sizes; a held system is released after k polls or from a helper thread while the caller blocks.",
+        "Holding a system only creates the opportunity for a bug to show; bounded holds (<= 30 ms) are not a verdict.", "DESIGN.md 4/C15"),
+    "C16": (PBT + " over generated trees of the real Par / Seq node types (boxing adapter); oracle: exactly-once, seq order from the event history, union of declarations, setup counters; planted-conflict rejection trees",
+        "Trees of depth <= 5, fan-out <= 6, pools 1..16, dispatch from outside and inside the pool; runnable trees and trees with exactly one planted conflict (Par::with must panic exactly there).",
+        "'May overlap' is a permission and is not asserted. Debug assertions are on in the harness profile.", "DESIGN.md 4/C16"),
+    "C17": ("model-based property testing: generated register / insert / remove / get / iterate histories over 7 implementing types (incl. a wrong CastFrom) against a reference list in first-registration order",
+        "Every type's methods read its own payload so a wrong vtable shows as a wrong tag (or a crash that the journal attributes); iteration while foreign guards are held.",
+        "A process crash while a journalled case runs is reported as a violation with that case.", "DESIGN.md 4/C17"),
     "C18": (PBT + "; generated ill-formed call planted at a generated position; oracle = panic exactly there, quoting the name, nowhere else",
         "Generated registration sequences up to 400 calls, funnel class, nested builders; every call under catch_unwind.",
         "Nothing is claimed about a builder after it panicked; explores a finite sample.", "DESIGN.md 4/C18"),
     "C19": (PBT + "; metamorphic relation: renaming / relabelling / list permutation leave the executed layout unchanged",
         "Metamorphic generated-input search: P, P built twice, and transformed P' must give identical canonical layouts.",
-        LAYOUT_NOTE, "DESIGN.md 4/C19"),
+        LAYOUT_NOTE + " Separate-process and no-`parallel`-feature comparisons are not built (stated in DESIGN.md).", "DESIGN.md 4/C19"),
     "C20": (PBT + "; oracle = printed text parses and equals the executed layout position by position",
-        "Generated-input search over builders with unnamed systems, odd names, batches, empty builders. Found and fixed one defect (unnamed systems made Debug panic).",
-        LAYOUT_NOTE, "DESIGN.md 4/C20"),
+        "Generated-input search over builders with unnamed systems, arbitrary names over letters and the sanitised characters, batches, empty builders. Found and fixed one defect (unnamed systems made Debug panic).",
+        LAYOUT_NOTE + " print_par_seq is println!(\"{:#?}\", self), i.e. the same formatter; it is not called separately (it would flood stdout).", "DESIGN.md 4/C20"),
 }
 
 NOT_YET = "check not built yet in this session (planned, see DESIGN.md section 4)"
@@ -81,6 +117,12 @@ def main():
                 "path": "/verif/harness",
                 "serves_properties": sorted(CLAIMED.keys()),
                 "kind_free_text": "Rust binary: proptest-generated choice streams decoded into registration sequences / histories / schedules, run against the real shred crate; explicit oracles; proptest + structural shrinking; JSON replay files",
+            },
+            {
+                "name": "gen06",
+                "path": "/verif/gen06",
+                "serves_properties": ["C06"],
+                "kind_free_text": "crate whose src/generated.rs is rewritten by vcheck per seed (generated SystemData types + expected access), compiled against /repo and run",
             }
         ],
         "checks": checks,
